@@ -14,12 +14,20 @@ def sh(cmd, **kw):
 
 def main():
     cases = json.load(open(os.path.join(VERIF, "selftest", "cases.json")))
-    flt = sys.argv[1] if len(sys.argv) > 1 else ""
+    args = sys.argv[1:]
+    only_prop = ""
+    if "--prop" in args:
+        k = args.index("--prop"); only_prop = args[k + 1]; del args[k:k + 2]
+    lenient = os.environ.get("SELFTEST_LENIENT") == "1"
+    flt = args[0] if args else ""
+    n_ok = n_skip = 0
     root = os.environ.get("VERIF_SCRATCH", "/root/scratch")
     os.makedirs(root, exist_ok=True)
     bad = 0
     for c in cases:
         if flt and flt not in c["name"]:
+            continue
+        if only_prop and only_prop not in c["props"]:
             continue
         wt = tempfile.mkdtemp(prefix="st_", dir=root)
         os.rmdir(wt)
@@ -33,9 +41,11 @@ def main():
             patch = os.path.join(VERIF, "selftest", "patches", c["patch"])
             r = sh(f"git -C {wt} apply {patch}")
             if r.returncode != 0:
+                if lenient:
+                    print(f"skip {c['name']}: patch does not apply to this tree"); n_skip += 1; continue
                 print(f"SELFTEST-ERROR {c['name']}: patch does not apply: {r.stderr.strip()}"); bad += 1; continue
             ok_all = True
-            for prop in c["props"]:
+            for prop in ([only_prop] if only_prop else c["props"]):
                 r = sh(f"{GOVC} -repo {wt} -verif {VERIF} -prop {prop} -no-evidence -tier quick")
                 out = r.stdout
                 viol = [l for l in out.splitlines() if l.startswith("VIOLATION")]
@@ -49,9 +59,12 @@ def main():
                 ok_all &= ok
             if not ok_all:
                 bad += 1
+            else:
+                n_ok += 1
         finally:
             sh(f"git -C {REPO} worktree remove --force {wt}")
             shutil.rmtree(wt, ignore_errors=True)
+    print(f"selftest: {n_ok} ok, {n_skip} skipped, {bad} misbehave")
     print("selftest:", "all cases behave" if bad == 0 else f"{bad} case(s) misbehave")
     return 1 if bad else 0
 
